@@ -103,7 +103,7 @@ MEDIUM = ["2", "0", "oo", "sL", "sT", "s1", "sV", "Q3m", "Q0len", "Q2s", "Qz", "
 REDUCED = ["2", "0", "sL", "sT", "s1", "Q3m", "Q0len", "D1"]
 EXPS = ["2", "-3", "1/2", "0", "s1", "sL", "Q5", "Q2s"]
 COMM = ("Add", "Mul", "Min", "Max")
-UNARY = ("Abs", "sin", "exp", "log", "sqrt")
+UNARY = ("Abs", "sin", "exp", "log", "sqrt", "fLof", "g1of")
 
 
 def build(d: Any) -> Any:
@@ -113,6 +113,10 @@ def build(d: Any) -> Any:
     a = [build(k) for k in kids]
     if op in ("Add", "Mul", "Min", "Max", "Pow", "Abs"):
         return getattr(sp, op)(*a)
+    if op == "fLof":  # the dimensioned library function applied to an arbitrary argument
+        return _LEAVES["fL(sT)"].func(a[0])
+    if op == "g1of":
+        return _LEAVES["g1(s1)"].func(a[0])
     return getattr(sp, op)(a[0])
 
 
@@ -228,12 +232,10 @@ def ref(e: Any) -> tuple[Any, str]:
 
 def numeric(e: Any) -> Any:
     """value under the fixed assignment; quantities by raw scale factor"""
-    frep = {}
-    for f in e.atoms(sp.Function):
-        if f.func in _FUNSUB:
-            frep[f] = _FUNSUB[f.func](*f.args)
-    drep = {d: d.xreplace(frep).doit() for d in e.atoms(sp.Derivative)}
-    e = e.xreplace(drep).xreplace(frep)
+    und = sp.core.function.AppliedUndef
+    e = e.replace(lambda x: isinstance(x, und) and x.func in _FUNSUB, lambda x: _FUNSUB[x.func](
+        *x.args))  # bottom-up, so nested applications and derivatives of them are all replaced
+    e = e.doit()
     rep = {s: _NUM[s] for s in e.free_symbols if s in _NUM}
     rep.update({q: q.scale_factor for q in e.atoms(SymQuantity)})
     return e.xreplace(rep)
@@ -294,6 +296,9 @@ def lib_dim(dim: Any) -> Any:
 
 
 def function_args_dimensionless(e: Any) -> bool:
+    known = {k for k in _QSUB if not isinstance(k, sp.Symbol)}
+    if any(f not in known for f in e.atoms(sp.core.function.AppliedUndef)):
+        return False  # an applied library function other than the leaves has no quantity to stand for it
     for f in e.atoms(sp.Function):
         if f.func in _DIM or isinstance(f, (sp.Abs, MinMaxBase)):
             continue
